@@ -19,7 +19,7 @@ pub fn run(op: &str, args: &[&str]) -> Option<String> {
             let b = unhex(h)?;
             Some(match deserialize::<Transaction>(&b) {
                 Ok(tx) => format!("OK {} {}", show_hex(&tx.hash().0), show_hex(&tx.prefix.hash().0)),
-                Err(_) => "ERR".into(),
+                Err(e) => crate::err_shown(&e),
             })
         }
         ("txparts", [h]) => {
@@ -36,7 +36,7 @@ pub fn run(op: &str, args: &[&str]) -> Option<String> {
                         None => format!("OK {} {} {} -", tx.prefix.version.0, p, p),
                     }
                 }
-                Err(_) => "ERR".into(),
+                Err(e) => crate::err_shown(&e),
             })
         }
         ("txhash_desc", toks) => {
@@ -48,15 +48,15 @@ pub fn run(op: &str, args: &[&str]) -> Option<String> {
             Some(match *t {
                 "pk" => match monero::PublicKey::from_slice(&b) {
                     Ok(k) => format!("OK {}", show_hex(&k.hash_to_scalar().to_bytes())),
-                    Err(_) => "ERR".into(),
+                    Err(e) => crate::err_shown(&e),
                 },
                 "tx" => match deserialize::<Transaction>(&b) {
                     Ok(x) => format!("OK {}", show_hex(&x.hash_to_scalar().to_bytes())),
-                    Err(_) => "ERR".into(),
+                    Err(e) => crate::err_shown(&e),
                 },
                 "prefix" => match deserialize::<monero::TransactionPrefix>(&b) {
                     Ok(x) => format!("OK {}", show_hex(&x.hash_to_scalar().to_bytes())),
-                    Err(_) => "ERR".into(),
+                    Err(e) => crate::err_shown(&e),
                 },
                 _ => return None,
             })
@@ -70,7 +70,7 @@ pub fn run(op: &str, args: &[&str]) -> Option<String> {
                     show_hex(&blk.serialize_hashable()),
                     show_hex(&blk.id().0)
                 ),
-                Err(_) => "ERR".into(),
+                Err(e) => crate::err_shown(&e),
             })
         }
         _ => None,
